@@ -11,8 +11,8 @@
   relates the two.  `rr` = row reader, `fs` = the RemoteReader (`none` = error).  Credentials / pg_control
   results are other areas' business: `Summary` is modelled as far as databases and tables go.
 
-  `strings.EqualFold` = `GoCase.goEqualFold` (Model/GoCase.lean: Go's function on ASCII, invalid UTF-8 and a stated alphabet
-  of cased letters); `fmt.Sscanf("%d")` on PG_VERSION as "optional sign, decimal digits".
+  `strings.EqualFold` = `GoCase.goEqualFold` (Model/GoCase.lean: Go's function — ASCII fast path, invalid UTF-8, the
+  `unicode.SimpleFold` orbits from Go's own table for all of Unicode); `fmt.Sscanf("%d")` on PG_VERSION as "optional sign, decimal digits".
 -/
 import PgVerif.Model.Cluster
 namespace PgVerif.Model
